@@ -2696,3 +2696,60 @@ Proof.
   destruct (reachable_inv s os Hs Hw) as (t0 & E0 & HI). rewrite H1 in E0. inversion E0; subst t0.
   apply pol_leave_holds; auto.
 Qed.
+
+(* ================================================================ 18. converse of (2): the 5-failures rule fires *)
+
+Theorem entry_leaves_if t n found pick t' b :
+  Inv t -> node_wf n -> Forall node_wf found ->
+  step t (Track n false found pick) = Some t' -> nbucket t (nid n) = Some b ->
+  K_maxFindnodeFailures <= fails_read (fails t) (nid n) (nip n) + 1 -> K_bucketSize / 4 <= nlen (ents b) ->
+  has (ents b) (nid n) ->
+  forall e', In e' (all_ents t') -> eid e' = nid n -> fresh_from found e'.
+Proof.
+  intros HI Hw1 Hw2 Hs Hb HF HL Hh e' He' Hid. simpl in Hs. unfold track in Hs.
+  set (fl := fails_read (fails t) (nid n) (nip n) + 1) in *.
+  set (t1 := mkTable (self t) (bks t) (gl t) (fails_set (fails t) (nid n) (nip n) fl) (initd t)) in *.
+  assert (I1 : Inv t1) by exact HI.
+  unfold nbucket in Hb. change (bks t) with (bks t1) in Hb. change (self t) with (self t1) in Hb. rewrite Hb in Hs.
+  apply N.leb_le in HF. apply N.leb_le in HL. rewrite HF, HL in Hs. simpl in Hs. change (self t) with (self t1) in Hs.
+  destruct (with_bucket t1 (bucket_of (self t1) (nid n)) (delete_in_bucket (nid n) pick)) as [t2|] eqn:WB; [|discriminate].
+  assert (Hr : (bucket_of (self t1) (nid n) < length (bks t1))%nat) by (apply nth_error_Some; congruence).
+  destruct (with_bucket_inv t1 _ (delete_in_bucket (nid n) pick) I1 Hr) as (t2' & E2 & I2 & _).
+  { intros R O OA Ofar b0 _ F. apply delete_in_bucket_inv; auto. }
+  rewrite WB in E2. inversion E2; subst t2'. clear E2.
+  apply with_bucket_shape in WB. destruct WB as (b0 & g' & b' & Hn0 & D & Et2). rewrite Hb in Hn0. inversion Hn0; subst b0.
+  destruct (add_all_new found t2 t' e' I2 Hw2 Hs He') as [X|X]; auto. exfalso.
+  assert (HUb : BUniq b) by (destruct I1 as (_ & _ & HB & _); destruct (HB _ _ Hb) as (_ & HU & _); auto).
+  pose proof (delete_removes _ _ _ _ _ _ HUb Hh D) as NR.
+  destruct X as (j & bj & x & Hj & Hx & Hxid).
+  destruct (Inv_place t2 j bj x I2 Hj) as [P2 _]; [rewrite in_app_iff; auto|].
+  rewrite Et2 in Hj, P2. simpl in Hj, P2. rewrite Hxid, Hid in P2.
+  apply nth_upd_cases in Hj; auto. destruct Hj as [[_ ->]|[Ne _]]; [|apply Ne; auto].
+  apply NR. exists x. split; auto. congruence.
+Qed.
+
+Corollary entry_leaves_if_gone t n found pick t' b :
+  Inv t -> node_wf n -> Forall node_wf found ->
+  step t (Track n false found pick) = Some t' -> nbucket t (nid n) = Some b ->
+  K_maxFindnodeFailures <= fails_read (fails t) (nid n) (nip n) + 1 -> K_bucketSize / 4 <= nlen (ents b) ->
+  has (ents b) (nid n) -> Forall (fun x => nid x <> nid n) found -> ~ In (nid n) (entry_ids t').
+Proof.
+  intros HI Hw1 Hw2 Hs Hb HF HL Hh Hnf Hin. unfold entry_ids in Hin. apply in_map_iff in Hin. destruct Hin as (e' & Hid & He').
+  destruct (entry_leaves_if t n found pick t' b HI Hw1 Hw2 Hs Hb HF HL Hh e' He' Hid) as (F1 & _).
+  rewrite Forall_forall in Hnf. apply (Hnf (nd e') F1). exact Hid.
+Qed.
+
+Theorem pol_kept_holds t o t' : Inv t -> op_wf o -> step t o = Some t' -> pol_kept_b t o t' = true.
+Proof.
+  intros HI Hw Hs. unfold pol_kept_b, must_leave_b. destruct o; auto. destruct success; auto.
+  destruct (nbucket t (nid n)) as [b|] eqn:Hb; auto.
+  destruct ((5 <=? fails_read (fails t) (nid n) (nip n) + 1) && (4 <=? nlen (ents b)) && existsb (fun e => eid e =? nid n) (ents b)) eqn:C; auto.
+  apply andb_true_iff in C. destruct C as [C C3]. apply andb_true_iff in C. destruct C as [C1 C2].
+  apply N.leb_le in C1, C2. apply existsb_has in C3.
+  destruct (find_entry t' (nid n)) as [e'|] eqn:F; auto. unfold find_entry in F. apply find_some in F. destruct F as [He' Hid]. apply N.eqb_eq in Hid.
+  destruct Hw as [Hw1 Hw2].
+  destruct (entry_leaves_if t n found pick t' b HI Hw1 Hw2 Hs Hb C1 C2 C3 e' He' Hid) as (F1 & F2 & F3).
+  apply andb_true_iff. split.
+  - apply existsb_exists. exists (nd e'). split; auto. apply N.eqb_eq. exact Hid.
+  - unfold fresh_b. rewrite F2. unfold rl_is. rewrite F3. simpl. rewrite !andb_true_r. apply existsb_exists. exists (nd e'). split; auto. apply node_eqb_eq; auto.
+Qed.
